@@ -14,6 +14,7 @@ import json
 import os
 import random
 import shutil
+import signal
 import sys
 import tempfile
 import time
@@ -38,8 +39,8 @@ PROPERTY = 'C09'
 BOUND = (
     'acyclic engines with <= 4 algorithms (task/analysis/regress) over <= 3 packages, <= 2 state vectors x <= 2 '
     'values each, inputs at ALG_REF/SV_REF/V_REF level, <= 1 feedback reference, three package styles; every '
-    'DAG x package-partition skeleton with <= 3 algorithms (45; thorough: x every kind assignment, plus all 896 '
-    'four-algorithm skeletons) with the other attributes cycled, plus seeded random engines (300 quick / 10^4 thorough)'
+    'DAG x package-partition skeleton with <= 3 algorithms and every 4-algorithm DAG (45 + 64; thorough: x every kind '
+    'assignment resp. x every partition, 1119 + 896) with the other attributes cycled, plus seeded random engines (300 quick / 10^4 thorough)'
 )
 CLAUSES = [
     'C09.construct',
@@ -135,9 +136,19 @@ def compare(spec, construct):
     return bad
 
 
+class _TooLong(BaseException):
+    pass
+
+
+def _alarm(*_):
+    raise _TooLong('no result after 2 s')
+
+
 def check(shop, spec, via, real_dot=None):
     '''build one engine, run Construct, compare; returns list of violation tuples'''
     eng = shop.build(spec)
+    signal.signal(signal.SIGALRM, _alarm)
+    signal.setitimer(signal.ITIMER_REAL, 2)
     try:
         try:
             factories = eng.scan() if via == 'scan' else eng.direct()
@@ -156,7 +167,10 @@ def check(shop, spec, via, real_dot=None):
                 if b'<svg' not in blob:
                     return [('C09.construct', 'construct:svg', blob[:80].decode('latin1'), 'an svg rendering')]
         return compare(spec, construct)
+    except _TooLong as e:
+        return [('C09.construct', 'construct:hang', repr(e), 'a task graph')]
     finally:
+        signal.setitimer(signal.ITIMER_REAL, 0)
         eng.forget()
         shop.engines.remove(eng)
 
@@ -201,11 +215,11 @@ def cases(tier, seed):
                 else:
                     out.append(('enum', _cycled(idx, edges, parts)))
                     idx += 1
-    if tier == 'thorough':
-        for edges in G.dags(4):
-            for parts in G.partitions(4):
-                out.append(('enum', _cycled(idx, edges, parts)))
-                idx += 1
+    p4 = G.partitions(4)
+    for k, edges in enumerate(G.dags(4)):
+        for parts in p4 if tier == 'thorough' else [p4[k % len(p4)]]:
+            out.append(('enum', _cycled(idx, edges, parts)))
+            idx += 1
     n_enum = len(out)
     total = 10000 if tier == 'thorough' else n_enum + 300
     k = 0
@@ -231,7 +245,7 @@ def _worker(chunk):
     try:
         with G.Workshop('c09e') as shop:
             for case in chunk:
-                if _DEADLINE[0] and time.time() > _DEADLINE[0] and case['how'] == 'rand':
+                if _DEADLINE[0] and time.time() > _DEADLINE[0]:
                     out.append(None)
                     continue
                 out.append(check(shop, case['spec'], case['via'], restore if case['real_dot'] else None))
@@ -274,7 +288,7 @@ def run(tier: str, seed: int) -> dict:
         'rule': (
             'one case = one generated engine package imported and passed to dag.Construct; enumerated part: every '
             'edge set over a fixed topological order x every spread over <= 3 packages for 1-3 algorithms '
-            '(thorough: x every kind assignment, and all 4-algorithm skeletons), remaining attributes (kinds, '
+            'and every 4-algorithm edge set (thorough: x every kind assignment resp. x every partition), remaining attributes (kinds, '
             'state-vector layouts, reference level per edge, doubled references, one feedback reference, package '
             'style, scan vs direct factories) fixed by the case index; sampled part: seeded random engines with '
             '2-4 algorithms; distinct = distinct spec dicts'
